@@ -83,7 +83,7 @@ class Expr:
 
     key: t.ClassVar[str] = "expression"
     arg_types: t.ClassVar[dict[str, bool]] = {"this": True}
-    required_args: t.ClassVar[set[str]] = {"this"}
+    required_args: t.ClassVar[tuple[str, ...]] = ("this",)
     is_var_len_args: t.ClassVar[bool] = False
     var_len_arg_key: t.ClassVar[str] = "expressions"
     _hash_raw_args: t.ClassVar[bool] = False
@@ -106,7 +106,7 @@ class Expr:
         # When an Expr class is created, its key is automatically set
         # to be the lowercase version of the class' name.
         cls.key = cls.__name__.lower()
-        cls.required_args = {k for k, v in cls.arg_types.items() if v}
+        cls.required_args = tuple(k for k, v in cls.arg_types.items() if v)
         # This is so that docstrings are not inherited in pdoc
         setattr(cls, "__doc__", getattr(cls, "__doc__", None) or "")
 
